@@ -389,6 +389,7 @@ func (fr *FuncRun) execGo(f *Frame, st *State, x *ssa.Go) {
 	fr.bumpCallCount(st, "go")
 	fr.callOrdGlobal["go"] = fr.staticOrd(f.fn, c)
 	fr.atCallAsserts(f, st, c, "go", fr.callOrdGlobal["go"], fnVal, args, x.Pos())
+	fr.ghostUpdates(f, st, c, "go", fnVal, args)
 	var target *ssa.Function
 	var clo *Closure
 	if fnVal.Clo != nil {
